@@ -105,6 +105,18 @@ def cli_args(o):
     return a
 
 
+# the order of `--mutators` is part of the configuration (the first applicable mutator wins; a kind given twice is two
+# mutators): pairs acting on the same value kind in both orders, and repetitions, at rates where it shows
+ORDERED_MUTATOR_CASES = [
+    dict(seed=21, protocol=2, rate=1.0, mutators=["boundary", "bitflip"]), dict(seed=21, protocol=2, rate=1.0, mutators=["bitflip", "boundary"]),
+    dict(seed=22, protocol=4, rate=1.0, mutators=["character", "stringlen"]), dict(seed=22, protocol=4, rate=1.0, mutators=["stringlen", "character"]),
+    dict(seed=23, protocol=1, rate=1.0, mutators=["memoindex", "offbyone"]), dict(seed=23, protocol=1, rate=1.0, mutators=["offbyone", "memoindex"]),
+    dict(seed=24, protocol=3, rate=0.5, mutators=["offbyone", "offbyone", "bitflip"]), dict(seed=24, protocol=3, rate=0.5, mutators=["offbyone", "bitflip"]),
+    dict(seed=25, protocol=5, rate=0.5, unsafe=True, mutators=["typeconfusion", "typeconfusion"]),
+    dict(seed=26, protocol=0, rate=0.9, mutators=["offbyone", "boundary", "bitflip", "character", "stringlen"]),
+]
+
+
 def sample_seed(rnd):
     """seeds over the whole u64 range, its edges included"""
     r = rnd.random()
@@ -134,7 +146,7 @@ def run_cli(binary, n, rnd, out):
     tmp = tempfile.mkdtemp(prefix="pfv-cli-")
     try:
         fixed = [dict(seed=5, protocol=4, unsafe=True), dict(seed=7, unsafe=True, rate=1.0), dict(seed=11, rate=1.0),
-                 dict(seed=3), dict(seed=9, protocol=5, ext=True), dict(seed=9, protocol=5, buf=True)]
+                 dict(seed=3), dict(seed=9, protocol=5, ext=True), dict(seed=9, protocol=5, buf=True)] + ORDERED_MUTATOR_CASES
         for k in range(n):
             o = fixed[k] if k < len(fixed) else sample_options(rnd)
             f = os.path.join(tmp, "o.pkl")
@@ -200,7 +212,7 @@ def run_batch_errors(binary, rnd, out):
 
 def run_batch(binary, n, rnd, out):
     for k in range(n):
-        o = sample_options(rnd)
+        o = sample_options(rnd) if k >= 2 else ORDERED_MUTATOR_CASES[2 * k]
         samples = rnd.choice([0, 1, 2, 3, 5, 17, 33])
         for threads in (1, 2, 16):
             tmp = tempfile.mkdtemp(prefix="pfv-batch-")
@@ -248,7 +260,7 @@ def run_action(binary, n, rnd, out):
     # every input alone and the mutators input as the last option before the output file
     fixed = [dict(seed=3, mutators=["bitflip", "boundary"]), dict(seed=4, mutators=["all"]), dict(seed=5),
              dict(seed=6, protocol=0), dict(seed=7, unsafe=True), dict(seed=8, ext=True, protocol=2),
-             dict(seed=9, buf=True, protocol=5), dict(seed=10, rate=1.0, mutators=["character"])]
+             dict(seed=9, buf=True, protocol=5), dict(seed=10, rate=1.0, mutators=["character"])] + ORDERED_MUTATOR_CASES[:6]
     for k in range(n + len(fixed)):
         o = fixed[k] if k < len(fixed) else sample_options(rnd)
         tmp = tempfile.mkdtemp(prefix="pfv-act-")
@@ -421,7 +433,8 @@ def run_python_scripts(pkg, n, rnd, out):
         elif pat == 1:    # same data, the range changed in between
             t["steps"] = [["mut", d, big], ["mrange", rnd.choice([0, 5]), rnd.choice([10, 20])], ["mut", d, big]]
         elif pat == 2:    # reset between identical calls; different data in between
-            t["steps"] = [["mut", d, big], ["mreset"], ["mut", d, big], ["mut", d2, big], ["mut", d, 50]]
+            t["steps"] = [["mrange", rnd.choice([3, 10]), rnd.choice([12, 25])], ["mut", d, big], ["mreset"], ["mut", d, big], ["mut", d2, big],
+                          ["range", 7, 9], ["genb", d], ["reset"], ["genb", d], ["mut", d, 50]]
         elif pat == 3:    # Generator: bytes, seeded, bytes again
             t["steps"] = [["genb", d], ["gen"], ["genb", d], ["range", 10, 30], ["genb", d], ["gen"]]
         elif pat == 4:    # range set several times; the last one counts; the seed stays
